@@ -25,7 +25,7 @@ W = {
 def profile(r, tier, index):
     return {
         "mailboxes": ["inbox", "a", "a/b"][: r.randint(1, 3)], "sessions": r.randint(1, 2), "weights": W, "init_hi": 3,
-        "ops_lo": 8, "ops_hi": 40 if tier == "thorough" else 26, "mode": "sequential", "examine_p": 0.1, "gc_p": 0.3, "inbox_children_p": 0.6,
+        "ops_lo": 8, "ops_hi": 40 if tier == "thorough" else 26, "mode": "sequential", "examine_p": 0.1, "gc_p": 0.3, "inbox_children_p": 0.6, "folder_scan_p": 0.3,
         # names that only differ in case, and names in which '_' (an SQL LIKE wildcard) stands where another name has a letter
         "name_alphabet": r.choice((["a", "b", "a b", "x.y", "p+q", "[z]"], ["a", "A", "a_b", "axb", "a b", "x.y"], ["a", "A", "b", "B", "a_b", "aXb"],
                                     # names that begin like INBOX are mailboxes of their own; "Inbox" as a first part is INBOX
@@ -60,9 +60,35 @@ def _post_conc(prog, r, tier, prof):
 _gen_conc, _, _ = _common.make(PROP, conc_profile, CONFIG, _post_conc)
 
 
+def _gen_rename_vs_scan(seed, tier, index, kf):
+    """RENAME of a tree of several mailboxes on a slow disk while the server's own periodic scan for new folders (every
+    0.5-2 s here, 90 s in production) comes round: a sequential history, the only other actor is the server itself."""
+    import random
+
+    prog = _gen_seq(seed, tier, index, kf)
+    r = random.Random(seed ^ 0x5CA7)
+    s0 = prog["sessions"][0]["id"]
+    kids = r.sample(["k1", "k2", "k3", "k4", "k5", "k1/m", "k2/m"], r.randint(3, 6))
+    ops = [{"s": s0, "op": "create", "name": "tree/" + k} for k in sorted(kids)]
+    ops.append({"s": s0, "op": "append", "mbox": "tree", "tok": 900, "flags": [], "date": 1650000900, "shape": "plain"})
+    ops.append({"actor": "driver", "op": "wait", "dt": r.choice((0.3, 1.1, 2.7))})
+    ops.append({"s": s0, "op": "rename", "name": "tree", "to": r.choice(("wood", "x.y/wood", "a b/wood"))})
+    ops.append({"s": s0, "op": "list", "ref": "", "pat": "*"})
+    ops.append({"actor": "life", "op": "restart", "kind": "cancel"})
+    ops.append({"s": s0, "op": "list", "ref": "", "pat": "*"})
+    prog["ops"] = ops
+    prog["latency"] = {"exec": r.choice(("small", "slow")), "db": r.choice(("slow", "wide", "bimodal")), "net": "zero"}
+    prog["knobs"] = dict(prog.get("knobs") or {}, folder_scan_every=r.choice((0.3, 0.5, 1.0, 2.0)))
+    prog["probe_p"] = 1.0
+    prog["family"] = "rename-vs-scan"
+    return prog
+
+
 def generate(seed, tier, index, kf):
     # every fifth program: the namespace commands come from 2-3 sessions at once
     if index % 5 == 4:
         return _gen_conc(seed, tier, index, kf)
+    if index % 20 == 13:
+        return _gen_rename_vs_scan(seed, tier, index, kf)
     return _gen_seq(seed, tier, index, kf)
 
